@@ -185,6 +185,12 @@ pub fn dump(o: &ObsVoronoi) -> Vec<u64> {
         d.push(c.safety_radius.to_bits());
         d.push(c.offset as u64);
         d.push(c.count as u64);
+        // what the cell's accessors return (a cell that believes to be another generator lists the
+        // same faces but reports other neighbours)
+        d.push(c.face_indices.len() as u64);
+        d.extend(c.face_indices.iter().map(|&x| x as u64));
+        d.push(c.neighbour_ids.len() as u64);
+        d.extend(c.neighbour_ids.iter().map(|&x| x as u64));
     }
     d.push(o.faces.len() as u64);
     for f in &o.faces {
